@@ -24,6 +24,8 @@ type c22Req struct {
 	gated bool // an RPC / control route that must sit behind the authenticator
 	// plan: how the authority answers this request
 	reject  *authw.ErrSpec // nil = accept
+	// rejectWithCtx: the rejecting authenticator also returns a non-nil context
+	rejectWithCtx bool
 	noProof bool           // proof gate in require mode and the request carries no valid proof
 	ident   httpw.Ident
 	// observations
@@ -142,6 +144,14 @@ func C22(e *simkern.Env) {
 			rq.authCalls++
 			if rq.reject != nil {
 				sim.Fault(rq.reject.FaultKind())
+				if rq.rejectWithCtx {
+					// "Return a non-nil error to reject the request" — the contract
+					// says nothing about the context value that comes with it; an
+					// authenticator that fills in what it learned before failing
+					// (the presented principal) still rejects
+					sim.Fault("auth-reject-with-context")
+					return &vgirpc.AuthContext{Domain: "bearer", Principal: "alice", Authenticated: true}, rq.reject.Build()
+				}
 				return nil, rq.reject.Build()
 			}
 			if !rq.ident.Auth {
@@ -344,6 +354,7 @@ func C22(e *simkern.Env) {
 					rq.ident = idents[tp.Draw(len(idents))]
 					if tp.Bool(1, 2) {
 						rq.reject = authw.Gen(tp, 2)
+						rq.rejectWithCtx = tp.Bool(1, 3)
 					}
 					hdr := map[string]string{"X-Sim-Req": ids}
 					if proofMode != 0 {
@@ -544,7 +555,7 @@ func init() {
 		Stub:  []string{"authenticator (outcome from the tape)", "UploadURLProvider, TokenResolver, RehydrateFunc, operator routes (counting, yielding)", "scripted handlers and stream states", "HTTP transport (direct ServeHTTP call)", "load balancer (tape)"},
 		Quick: 1200, Thorough: 80000,
 		Warm:       warmHTTP,
-		FaultKinds: []string{"auth-unavailable", "auth-failure", "auth-rpcerror", "auth-foreign-error", "proof-gate-reject"},
+		FaultKinds: []string{"auth-unavailable", "auth-failure", "auth-rpcerror", "auth-foreign-error", "auth-reject-with-context", "proof-gate-reject"},
 		Assumptions: []string{
 			"'rejects a request' is decided by the fault plan: a request for which the configured authenticator would return an error; a route that never consults the authenticator is judged by the same plan",
 			"for __describe__ (no callback to observe) 'performs no work' is read as 'is not answered with a 2xx'; the same is required of every rejected request on a gated route",
